@@ -24,13 +24,13 @@ type Mutation struct {
 var boundaryLits = []string{"300", "-1", "1 << 70", "1.5", `"str"`, "nil", "'x'", "2i", "0", "1e100", "-129", "65536", "true"}
 
 var opSwaps = map[token.Token][]token.Token{
-	token.ADD: {token.AND, token.REM, token.SHL, token.LAND, token.EQL},
-	token.SUB: {token.REM, token.OR, token.LOR},
-	token.MUL: {token.AND_NOT, token.SHR, token.LSS},
-	token.QUO: {token.REM, token.XOR},
-	token.EQL: {token.LSS, token.ADD, token.LAND},
-	token.NEQ: {token.GTR, token.SUB},
-	token.LSS: {token.ADD, token.LAND},
+	token.ADD:  {token.AND, token.REM, token.SHL, token.LAND, token.EQL},
+	token.SUB:  {token.REM, token.OR, token.LOR},
+	token.MUL:  {token.AND_NOT, token.SHR, token.LSS},
+	token.QUO:  {token.REM, token.XOR},
+	token.EQL:  {token.LSS, token.ADD, token.LAND},
+	token.NEQ:  {token.GTR, token.SUB},
+	token.LSS:  {token.ADD, token.LAND},
 	token.LAND: {token.ADD, token.LSS},
 	token.LOR:  {token.AND, token.EQL},
 	token.AND:  {token.LAND, token.QUO},
